@@ -39,9 +39,6 @@ def step(ctx, g, dims, terms, periodic=(), explicit=False, star=None):
     # periodic axes need equal end cells for the reported ghosts to be the periodic images
     for ax in per:
         ctx.assume((fs[ax][1] - fs[ax][0]) == (fs[ax][dims[ax]] - fs[ax][dims[ax] - 1]), 'equal end cells on periodic axis')
-    phi = scen.cellvar(ctx, m, 'o')
-    for ax in per:
-        getattr(phi.BCs, scen.SIDES[2 * ax]).periodic = True
     dt = ctx.real('dt', 'pos')
     alpha = ctx.real('al', 'pos')
     D = scen.facevar(ctx, m, 'D')
@@ -70,22 +67,35 @@ def step(ctx, g, dims, terms, periodic=(), explicit=False, star=None):
                 comp[tuple(sl_hi)] = 0.0
     tag = 'C01/%s/%s/step/%s/%s%s%s' % (g, 'x'.join(map(str, dims)), '+'.join(terms), 'per' + ''.join(scen.AX[a] for a in per) if per else 'closed',
                                         '/explicit' if explicit else '', ('/star' + ''.join(map(str, star))) if star is not None else '')
-    old_int = phi.domainIntegral()
     if explicit:
-        phi.apply_BCs()
-        rhs = None
-        for t in terms:
-            if t == 'diffusion':
-                r = pf.divergenceTerm(D * pf.gradientTerm(phi))
-            elif t == 'central':
-                r = -pf.divergenceTerm(u * pf.linearMean(phi))
-            elif t == 'upwind':
-                r = -pf.divergenceTerm(u * pf.upwindMean(phi, u))
-            rhs = r if rhs is None else rhs + r
-        new = pf.solveExplicitPDE(phi, dt, rhs)
-        ctx.eq(tag + '/integral', new.domainIntegral(), old_int)
+        # linear in the old field: the real chain and the real explicit solver are run once per unit field (ghost layer imposed by
+        # the real apply_BCs), which keeps every query local
+        for cj in [None] + list(scen.interior_cells(dims)):
+            vals = np.zeros(tuple(dims)) if not ctx.sym else np.array([ctx.const(0.0)] * int(np.prod(dims)), dtype=object).reshape(tuple(dims))
+            if cj is not None:
+                vals[tuple(q - 1 for q in cj)] = 1.0 if not ctx.sym else ctx.const(1.0)
+            phi = pf.CellVariable(m, scen.symnp.symarray(vals) if ctx.sym else vals)
+            for ax in per:
+                getattr(phi.BCs, scen.SIDES[2 * ax]).periodic = True
+            phi.apply_BCs()
+            old_int = phi.domainIntegral()
+            rhs = None
+            for t in terms:
+                if t == 'diffusion':
+                    r = pf.divergenceTerm(D * pf.gradientTerm(phi))
+                elif t == 'central':
+                    r = -pf.divergenceTerm(u * pf.linearMean(phi))
+                elif t == 'upwind':
+                    r = -pf.divergenceTerm(u * pf.upwindMean(phi, u))
+                rhs = r if rhs is None else rhs + r
+            new = pf.solveExplicitPDE(phi, dt, rhs)
+            ctx.eq('%s/integral/%s' % (tag, 'zero' if cj is None else 'e' + '_'.join(map(str, cj))), new.domainIntegral(), old_int)
         return
-    sol = scen.Solver(ctx, alias=scen.ghost_alias(g, dims, per))
+    phi = scen.cellvar(ctx, m, 'o')
+    for ax in per:
+        getattr(phi.BCs, scen.SIDES[2 * ax]).periodic = True
+    alias = scen.ghost_alias(g, dims, per)
+    sol = scen.Solver(ctx, alias=alias)
     eq = [pf.transientTerm(phi, dt, alpha)]
     for t in terms:
         if t == 'diffusion':
@@ -101,23 +111,36 @@ def step(ctx, g, dims, terms, periodic=(), explicit=False, star=None):
     G = scen.cell_index(dims)
     V = m.cellvolume
     x = sol.x
+    n = sol.M.shape[0]
     # (a) the ghost unknowns eliminated by aliasing satisfy the boundary rows the solver was given
     for cc in scen.all_cells(dims):
         if scen.n_out(cc, dims) == 1:
             r = int(G[cc])
             ctx.eq(tag + '/ghostrow/' + '_'.join(map(str, cc)), scen.matvec_row(rows, r, x, ctx), sol.RHS[r])
-    # (b) volume-weighted sum of the interior residuals = alpha/dt * (integral(x) - integral(old)):
-    #     every flux term cancels.  With (a) and M x = RHS this gives integral(new) = integral(old).
-    S = ctx.const(0)
-    Ix = ctx.const(0)
+    # (b) volume-weighted sum of the interior residuals = alpha/dt * (integral(x) - integral(old)): every flux term cancels.
+    #     With (a) and M x = RHS this gives integral(new) = integral(old).  Both sides are affine in the independent unknowns
+    #     (ghost unknowns are aliases): constant parts and the coefficient of every unknown are compared separately.
+    cells = [(int(G[cc]), V[tuple(q - 1 for q in cc)]) for cc in scen.interior_cells(dims)]
     Io = ctx.const(0)
-    for k, cc in enumerate(scen.interior_cells(dims)):
-        r = int(G[cc])
-        v = V[tuple(q - 1 for q in cc)]
-        S = S + v * (scen.matvec_row(rows, r, x, ctx) - sol.RHS[r])
-        Ix = Ix + v * x[r]
+    crhs = ctx.const(0)
+    for k, (r, v) in enumerate(cells):
         Io = Io + v * old_vals[k]
-    ctx.eq(tag + '/residual_sum', S, alpha / dt * (Ix - Io), timeout=60)
+        crhs = crhs + v * sol.RHS[r]
+    ctx.eq(tag + '/residual_sum/const', crhs, alpha / dt * Io, timeout=60)
+    for k in range(n):
+        if k in alias:
+            continue
+        e = [1.0 if (i == k or alias.get(i) == k) else 0.0 for i in range(n)]
+        lhs = ctx.const(0)
+        Ik = ctx.const(0)
+        for r, v in cells:
+            lhs = lhs + v * scen.matvec_row(rows, r, e, ctx)
+            if r == k:
+                Ik = Ik + v
+        ctx.eq('%s/residual_sum/col%d' % (tag, k), lhs, alpha / dt * Ik, timeout=60)
+    Ix = ctx.const(0)
+    for r, v in cells:
+        Ix = Ix + v * x[r]
     # the value reported afterwards by the real domainIntegral() is integral(x)
     ctx.eq(tag + '/reported_integral', phi.domainIntegral(), Ix)
 
@@ -346,8 +369,8 @@ def scenarios(tier):
             for per in pers:
                 for terms in combos:
                     for explicit in (False, True):
-                        if explicit and tier == 'quick' and len(terms) > 1:
-                            continue
+                        if explicit and len(terms) > 1:
+                            continue        # the explicit right-hand side is summed by the harness itself
                         for star in stars:
                             T.append({'name': 'step/%s/%s/%s/%s%s%s' % (g, 'x'.join(map(str, dims)), '+'.join(terms),
                                                                          'per' + ''.join(map(str, per)) if per else 'closed',
@@ -368,8 +391,8 @@ def scenarios(tier):
             stars3 = [[1] * nd, list(dims)] if tier == 'quick' else [[1] * nd, list(dims), [1] + list(dims[1:]), list(dims[:-1]) + [1]]
             for terms in combos:
                 for explicit in (False, True):
-                    if explicit and tier == 'quick' and len(terms) > 1:
-                        continue
+                    if explicit and len(terms) > 1:
+                        continue        # the explicit right-hand side is summed by the harness itself: term combinations say nothing new
                     # 3-D explicit / multi-term steps: coefficient fields symbolic on the faces of one corner cell at a time, and when the
                     # upwind term (one case split per face) is involved, on the two faces of that cell along one axis at a time
                     sts = [(None, None)]
